@@ -11,10 +11,22 @@
      open_before evs k  = some Onset of k occurs in evs with no Offset of k after it
      state_after h      = OnsetValidator._onsets (keys) after the history h
      issues_at h1 tp    = issues of validate_temporal_relations for tp after h1 *)
-(* The file pipeline is stated for the code AS IT NOW IS (fix C10-F1:
-   sort_dataframe_by_onsets uses kind='stable'; model parameter fixed = true).
-   The theorems about the unrepaired code (fixed = false, tie order chosen by the
-   platform) are kept at the end as the record of the repaired defect. *)
+(* The file pipeline is stated for the code AS IT NOW IS in /repo: fix commit 29fcd01
+   (finding C10-F1) made sort_dataframe_by_onsets a stable sort (kind='stable'); model
+   parameter fixed = true, harness default VERIF_C10_FIXED=1.
+   The theorems about fixed = false (behaviour BEFORE fix commit 29fcd01: tie order
+   chosen by the platform) are kept at the end only as the record of the repaired
+   defect; the property is not false of the current implementation.
+
+   What kind of statement each theorem is:
+   - results proved by induction over ALL histories / files: C10_state_is_spec ..
+     C10_tie_order_irrelevant, C10_processing_order_is_stable_sort,
+     C10_process_file_never_raises, C10_effective_time, C10_group_takes_effect_at;
+   - restatements of model definitions in declarative form (documentation of the model,
+     NOT results): C10_delayed_entry_time, C10_remaining_groups, C10_row_failed_iff,
+     C10_warnings_only_row_takes_part;
+   - true by construction of the model (the modelling decision, tested on the
+     implementation, not proved of it): C10_files_independent. *)
 From Coq Require Import List NArith Permutation Sorted.
 From HV Require Import Base.Res Base.Str Model.Onset Model.Timeline
   Proofs.OnsetProofs Proofs.TimelineProofs Proofs.TimelineTotal Proofs.TimelineRuns.
@@ -114,8 +126,10 @@ Proof. exact tie_order_irrelevant. Qed.
 Print Assumptions C10_tie_order_irrelevant.
 
 (* ... and it does matter when a name is used twice: the first marker in processing
-   order wins.  (This is why the tie order of the sort is observable, finding C10-F1;
-   with the stable sort the processing order is the file order.) *)
+   order wins.  (This is why the tie order of the sort was observable, finding C10-F1,
+   repaired by fix commit 29fcd01; with the stable sort the processing order is the file
+   order.)  This is a fact about the marker order inside a time point, true of the
+   current code too; it is not a defect. *)
 Theorem C10_tie_order_independent_refuted :
   exists tp tp', Permutation tp tp' /\
     state_after [tp] <> state_after [tp'] /\
@@ -137,35 +151,54 @@ Theorem C10_processing_order_is_stable_sort : forall (irows : list (nat * row)),
 Proof. exact processing_order_is_stable_sort. Qed.
 Print Assumptions C10_processing_order_is_stable_sort.
 
-(* A Delay group whose value converts to seconds takes effect at onset + delay and keeps
-   the row it came from -- in ANY row, whatever other groups it holds (mixed rows). *)
+(* RESTATEMENT of the model definition delayed_entries (unfolded flat_map), kept as
+   documentation: a Delay group whose value converts to seconds becomes a line at
+   onset + delay carrying the row it came from -- in ANY row, whatever other groups it
+   holds (mixed rows).  The result that uses it is C10_group_takes_effect_at below. *)
 Theorem C10_delayed_entry_time : forall (i : nat) (r : row) (e : entry),
   In e (delayed_entries (i, r)) <->
   exists d g, In (Delay (Some d), g) (r_groups r) /\ e = mkEntry (r_onset r + d)%N i [g].
 Proof. exact delayed_entry_time. Qed.
 Print Assumptions C10_delayed_entry_time.
 
-(* Every other group -- no Delay tag, or a Delay whose unit has no conversion to seconds
-   (Delay/1 year, Delay/1 month) -- stays in its row, in order: it takes effect at the
-   row's own onset and does not stop later Delay groups of the row from shifting. *)
+(* RESTATEMENT of the model definition remaining_groups (flat_map form = map/filter
+   form), kept as documentation: every other group -- no Delay tag, or a Delay whose unit
+   has no conversion to seconds (Delay/1 year, Delay/1 month) -- stays in its row, in
+   order, and does not stop later Delay groups of the row from shifting. *)
 Theorem C10_remaining_groups : forall r : row,
   remaining_groups r = map snd (filter (fun g => negb (shifts g)) (r_groups r)).
 Proof. exact remaining_groups_spec. Qed.
 Print Assumptions C10_remaining_groups.
 
-(* A row is left out of the bookkeeping (when it starts a time point) exactly when the
-   issues of its last non-empty HED cell contain an ERROR ... *)
+(* RESTATEMENT of the model definition row_failed (existsb unfolded), kept as
+   documentation; that _run_checks really behaves so is TESTED (the model's failed rows are
+   compared with the validator's invalid_original_rows on every generated file): a row is
+   left out of the bookkeeping (when it starts a time point) exactly when the issues of
+   its last non-empty HED cell contain an ERROR ... *)
 Theorem C10_row_failed_iff : forall r : row,
   row_failed r = true <-> In SevError (last (r_cells r) []).
 Proof. exact row_failed_iff. Qed.
 Print Assumptions C10_row_failed_iff.
 
-(* ... so a legal row that only draws warnings (TAG_EXTENDED, STYLE_WARNING, UNITS_MISSING)
-   is an ordinary row of the history: C10_effective_time processes its markers. *)
+(* ... so (immediate corollary of the definition) a legal row that only draws warnings
+   (TAG_EXTENDED, STYLE_WARNING, UNITS_MISSING) is an ordinary row of the history:
+   C10_effective_time processes its markers. *)
 Theorem C10_warnings_only_row_takes_part : forall r : row,
   (forall c, In c (r_cells r) -> forall x, In x c -> x = SevWarning) -> row_failed r = false.
 Proof. exact warnings_only_row_takes_part. Qed.
 Print Assumptions C10_warnings_only_row_takes_part.
+
+(* RESULT (for ALL files, rows and groups): every top-level group of every row belongs to
+   the lines of exactly its effective time -- onset + delay when its Delay converts to
+   seconds, the row's own onset otherwise (no Delay, or Delay/1 year) -- in a line that
+   carries the row's index.  With C10_effective_time (one time point per effective time,
+   holding all lines of that time) this is the clause "rows sharing an onset time, and
+   groups shifted by a Delay tag, take effect at their effective time", group by group. *)
+Theorem C10_group_takes_effect_at : forall (rows : list row) (i : nat) (r : row) (g : group),
+  nth_error rows i = Some r -> In g (r_groups r) ->
+  exists e, In e (lines_at (group_time r g) (index_from 0 rows)) /\ e_orig e = i /\ In (snd g) (e_groups e).
+Proof. exact group_takes_effect_at. Qed.
+Print Assumptions C10_group_takes_effect_at.
 
 (* The onset part of file validation never raises, for ALL files (sorted or not,
    any Delay groups, failed rows): every index stored by _indexed_dict_from_onsets
@@ -175,10 +208,14 @@ Theorem C10_process_file_never_raises : forall (rows : list row) perm1 perm2,
 Proof. exact process_file_never_raises. Qed.
 Print Assumptions C10_process_file_never_raises.
 
-(* Each file's history starts with no scope open: validating several files one after the
-   other with the SAME SpreadsheetValidator object gives, for every file, the outcome of
-   that file alone (validate() makes a fresh OnsetValidator; scopes an earlier file left
-   open are not carried over). *)
+(* BY CONSTRUCTION OF THE MODEL (not a result about the validator object): sv_validate
+   transcribes "self._onset_validator = OnsetValidator()" of SpreadsheetValidator.validate,
+   i.e. it starts from state0 and ignores what the object held before; the theorem only
+   records the consequence that, for a sequence of files validated with the SAME
+   SpreadsheetValidator object, every file's outcome is that of the file alone.  That the
+   implementation really makes a fresh OnsetValidator per call is TESTED (sequences of 2-3
+   files on one object, each file compared with the model and the statement run from the
+   empty state; exactly one OnsetValidator created per call), not proved. *)
 Theorem C10_files_independent : forall fixed (files : list (list row)) sv i rows,
   nth_error files i = Some rows ->
   nth_error (validate_seq fixed sv files) i = Some (process_file fixed None None rows).
@@ -192,7 +229,10 @@ Print Assumptions C10_files_independent.
    group with that effective time (rows in file order, then Delay groups in file
    order), reported at the row of its first line, skipping time points that start with
    a failed row (C10_row_failed_iff: an ERROR in its last HED cell; warnings do not count);
-   the platform's tie orders perm1/perm2 are not consulted any more. *)
+   the platform's tie orders perm1/perm2 are not consulted any more.
+   spec_file (Proofs/TimelineProofs.v) is declarative and independent of the sort, the
+   dictionary and the index code; it shares split_entries (whose content is
+   C10_group_takes_effect_at), run_onset_checks and row_failed with the model. *)
 Theorem C10_effective_time : forall (rows : list row) perm1 perm2,
   needs_sorting rows = false -> process_file true perm1 perm2 rows = Ok (spec_file rows).
 Proof. exact effective_time. Qed.
@@ -232,7 +272,8 @@ Example C10_nonvacuous_reset :
 Proof. exact carried_scope_would_hide. Qed.
 
 (* ------------------------------------------------------------------ *)
-(* RECORD OF THE REPAIRED DEFECT C10-F1 (unrepaired code: fixed = false) *)
+(* RECORD OF THE REPAIRED DEFECT C10-F1: behaviour BEFORE fix commit 29fcd01
+   (fixed = false).  None of this is true of the current /repo.          *)
 (* ------------------------------------------------------------------ *)
 
 (* Unrepaired sort: whatever tie order the platform picks, an accepted order is sorted by effective time ... *)
@@ -247,7 +288,7 @@ Theorem C10_effective_time_unrepaired_order_preserving : forall rows : list row,
 Proof. exact effective_time_order_preserving. Qed.
 Print Assumptions C10_effective_time_unrepaired_order_preserving.
 
-(* ... but the full statement was FALSE of the unrepaired code: a tie order that the
+(* ... but the full statement was FALSE of the code before fix commit 29fcd01: a tie order that the
    platform's sort may return gives another outcome (rows "1.0 (Def/A,Onset)" and
    "1.0 (Def/A,Offset)" merged in the order 1,0). *)
 Theorem C10_effective_time_unrepaired_refuted :
